@@ -98,6 +98,25 @@ theorem kev_ne : (12.3984193 : ℝ) ≠ 0 := by norm_num
 theorem avog_ne : (0.602214129 : ℝ) ≠ 0 := by norm_num
 theorem mec2_ne : (510.998928 : ℝ) ≠ 0 := by norm_num
 
+theorem ite_okJ {β : Type} (c : Prop) [Decidable c] (a b : β) :
+    (if c then (Except.ok a : JM β) else Except.ok b) = Except.ok (if c then a else b) := by split_ifs <;> rfl
+theorem ite_addJ (c : Prop) [Decidable c] (a x : ℝ) :
+    (if c then (Except.ok (a + x) : JM ℝ) else Except.ok a) = Except.ok (a + if c then x else 0) := by split_ifs <;> simp
+theorem ite_addC (c : Prop) [Decidable c] (a x : ℝ) :
+    (if c then (Except.ok (a + x) : M ℝ) else Except.ok a) = Except.ok (a + if c then x else 0) := by split_ifs <;> simp
+theorem ite_okC {β : Type} (c : Prop) [Decidable c] (a b : β) :
+    (if c then (Except.ok a : M β) else Except.ok b) = Except.ok (if c then a else b) := by split_ifs <;> rfl
+
+/-- `X[36 * Z + 4 * j + k]` of a `double X[121][9][4]` written row-major is `X[Z][j][k]` -/
+theorem jrd_flat3 {β : Type} (name : String) (f : Nat → Nat → Nat → β) (Z j k : Int)
+    (hZ0 : 0 ≤ Z) (hZ1 : Z < 121) (hj0 : 0 ≤ j) (hj1 : j < 9) (hk0 : 0 ≤ k) (hk1 : k < 4) :
+    jrd name (some (jflat3 121 9 4 f)) (36 * Z + 4 * j + k) = .ok (f Z.toNat j.toNat k.toNat) := by
+  have h1 : 0 ≤ 36 * Z + 4 * j + k ∧ 36 * Z + 4 * j + k < ((121 * 9 * 4 : Nat) : Int) := by omega
+  have e1 : (36 * Z + 4 * j + k).toNat / (9 * 4) = Z.toNat := by omega
+  have e2 : (36 * Z + 4 * j + k).toNat / 4 % 9 = j.toNat := by omega
+  have e3 : (36 * Z + 4 * j + k).toNat % 4 = k.toNat := by omega
+  simp only [jrd_some, jflat3, h1, and_self, ↓reduceIte, e1, e2, e3]
+
 theorem JRel.value_eq {x y : ℝ} {s : Slot} (h : x = y) : JRel (.ok x) (.ok (y, s)) s := h ▸ JRel.value
 
 /-- a Java outcome that, when it is a value, is a positive one (what the `== 0.0` failure tests of the C callers rely on) -/
@@ -127,10 +146,10 @@ macro "jpos_struct" : tactic =>
 /-- the simp set that evaluates both generated definitions one step; side conditions go to `omega` -/
 macro "jeq_simp" : tactic =>
   `(tactic| first
-    | simp (disch := omega) only [*, wrapI_eq, jrd_flat2, jrd_flat2', jrd_vec, jrd_dyn, rd1_ok, rd2_ok, rd3_ok, chkI_ok, ↓reduceIte,
+    | simp (disch := omega) only [*, wrapI_eq, jrd_flat2, jrd_flat2', jrd_flat3, jrd_vec, jrd_dyn, rd1_ok, rd2_ok, rd3_ok, chkI_ok, ↓reduceIte,
       not_true_eq_false, not_false_eq_true, bind_ok, bind_error, pure_eq_ok, throw_eq_error, jbind_ok, jbind_error, jpure_eq_ok,
       jthrow_eq_error, jtry_ok, jtry_iae, jtry_nf, decide_eq_true_eq, deq_real, jdiv_real, ddiv_real, jlog_real, dlog_real, ofInt_le_zero, ofInt_lt_zero, ofInt_le_zero', ofInt_lt_zero', zero_lit, eq_self_iff_true, ne_eq, withErr_empty, isFull_full, isFull_empty, isFull_null, withErr_null, kev_lit, kev_ne, avog_ne, mec2_ne, Bool.false_eq_true, propagateErr_full, setErr_null, setErr_empty, setErr_notFull (by assumption)]
-    | simp (disch := omega) only [*, wrapI_eq, jrd_flat2, jrd_flat2', jrd_vec, jrd_dyn, rd1_ok, rd2_ok, rd3_ok, chkI_ok, ↓reduceIte,
+    | simp (disch := omega) only [*, wrapI_eq, jrd_flat2, jrd_flat2', jrd_flat3, jrd_vec, jrd_dyn, rd1_ok, rd2_ok, rd3_ok, chkI_ok, ↓reduceIte,
       not_true_eq_false, not_false_eq_true, bind_ok, bind_error, pure_eq_ok, throw_eq_error, jbind_ok, jbind_error, jpure_eq_ok,
       jthrow_eq_error, jtry_ok, jtry_iae, jtry_nf, decide_eq_true_eq, deq_real, jdiv_real, ddiv_real, jlog_real, dlog_real, ofInt_le_zero, ofInt_lt_zero, ofInt_le_zero', ofInt_lt_zero', zero_lit, eq_self_iff_true, ne_eq, withErr_empty, isFull_full, isFull_empty, isFull_null, withErr_null, kev_lit, kev_ne, avog_ne, mec2_ne, Bool.false_eq_true, propagateErr_full, setErr_null, setErr_empty])
 
@@ -151,6 +170,11 @@ macro "jpos_auto" : tactic =>
     repeat' (first
       | with_reducible exact JPos.error | with_reducible exact JPos.exp | ((with_reducible apply JPos.of_pos) <;> first | assumption | positivity | linarith)
       | (split_ifs <;> (try jeq_simp)))))
+
+/-- for straight-line code whose calls have all been resolved: push the remaining `if`s into the values instead of splitting on them
+(`n` sequential `if (P > 0.0) rv += …` would otherwise give `2^n` cases) -/
+macro "jeq_pure" : tactic =>
+  `(tactic| simp (maxSteps := 2000000) (disch := omega) only [*, wrapI_eq, jrd_flat3, rd3_ok, bind_ok, jbind_ok, pure_eq_ok, jpure_eq_ok, ite_addJ, ite_addC, zero_lit, deq_real, ↓reduceIte])
 
 /-- alternate between closing leaves and splitting the guards of the two generated definitions -/
 macro "jeq_auto" : tactic =>
